@@ -286,7 +286,11 @@ fn run_probe(name: &str) -> String {
     let Some(bin) = child_binary() else {
         return "NO-CHILD-BINARY".to_string();
     };
-    let dir = std::env::temp_dir().join(format!("c07-{}-{}", std::process::id(), name));
+    // (unique per invocation: the same probe may run on two workers at once — as a fixed case
+    // and as a corpus entry)
+    static PROBE_NO: std::sync::atomic::AtomicUsize = std::sync::atomic::AtomicUsize::new(0);
+    let n = PROBE_NO.fetch_add(1, std::sync::atomic::Ordering::SeqCst);
+    let dir = std::env::temp_dir().join(format!("c07-{}-{}-{}", std::process::id(), n, name));
     let _ = std::fs::create_dir_all(&dir);
     let file = dir.join("probe.ds");
     let text = probe_text(script).replace("@SELF", &file.to_string_lossy());
